@@ -75,7 +75,7 @@ MIN_EVENTS = {
               'usbsrc_packets': 4000, 'usbsrc_transfers': 5000, 'usbsrc_empty_iso_packets': 800,
               'server_tcp_cuts': 120, 'server_unix_cuts': 120, 'server_ws_cuts': 90,
               'server_packets_seen': 1000, 'source_sink_reattached_mid_packet': 20000,
-              'server_clients_reset_with_unread_data': 60, 'server_invalid_byte_clients': 40},
+              'server_clients_reset_with_unread_data': 60, 'server_invalid_byte_clients': 20},
     'thorough': {'parser_chunks': 20000000, 'reader_packets': 30000000, 'areader_chunks': 20000000,
                  'usb_chunks': 15000000, 'oracle_evals': 150000000, 'agree_evals': 10000000,
                  'exhaustive_chunkings': 400000, 'huge_streams': 2000, 'truncated_streams': 100000,
@@ -83,7 +83,7 @@ MIN_EVENTS = {
                  'usbsrc_packets': 100000, 'usbsrc_transfers': 100000, 'usbsrc_empty_iso_packets': 15000,
                  'server_tcp_cuts': 1200, 'server_unix_cuts': 1200, 'server_ws_cuts': 1200,
                  'server_packets_seen': 12000, 'source_sink_reattached_mid_packet': 400000,
-                 'server_clients_reset_with_unread_data': 600, 'server_invalid_byte_clients': 400},
+                 'server_clients_reset_with_unread_data': 600, 'server_invalid_byte_clients': 250},
 }
 CASE_TIMEOUT = 600
 SOCKET_WAIT = 60.0          # wall seconds for one counted socket event; expiry => inconclusive
